@@ -44,6 +44,9 @@ CHECKS = {
  "C12": dict(engine="bytes", category="model_checking", technique="same byte-string space as C06 restricted to verifier-accepted strings, compiled twice by the JIT (all) and Cranelift (one opcode per translation arm) under catch_unwind; plus every program length 1..3000 of 8 instruction kinds, fix-up tables up to 2000 jumps and 65535..65537 (10^6) instructions",
    text="jit_compile / cranelift_compile must return Ok or Err (a panic, including the emit_bytes! bounds assert that turns a buffer overrun into a panic, is a violation); two compilations must agree on Ok/Err and, where the reference machine proves the run defined, on the result (executed in a forked child).",
    design_ref="DESIGN.md section 4 C12"),
+ "C18": dict(engine="sched", category="model_checking", technique="stateless DFS over all interleavings of real threads executing real machine code: own ptrace-based controlled scheduler, hardware watch-points (debug registers) on the shared word as scheduling points, single-stepping between a thread's ready and done markers, one thread at a time",
+   text="For every engine mix (3^N), N threads x K atomic adds (quick: (2,1) (2,2) (3,1); thorough adds (3,2) (4,1)), both widths, every schedule of the accesses is executed in a fresh subject process; after each execution the word must equal init + sum of addends, every access must be a locked read-modify-write adding that thread's addend, neighbouring bytes unchanged, every execution Ok. One schedule per configuration is replayed and must give the identical trace; a deliberately non-atomic subject must yield a lost update (self-test) or the check exits 2. Sequential part: width x alignment x addend x pointer register x engine.",
+   design_ref="DESIGN.md section 4 C18", note="Trusted base: the kernel's ptrace / debug-register implementation, the 60-line opcode classifier in mc/src/schedeng.rs, sequentially consistent interleaving model (no store buffers), x86-64 only."),
  "C19": dict(engine="helpers", category="exploration", technique="exhaustive enumeration of helper argument alphabets (boundary values per argument, all buffer lengths/alignments, all short strings, every k^2 and k^2+-1) against independent functions; stdout of bpf_trace_printf captured in a child process",
    text="gather_bytes, memfrob (guard pages + canaries), strcmp (all pairs of strings <= 3 bytes over sign-boundary bytes, null pointers), sqrti (integer square root below 2^52, bit-exact integer emulation of round-to-f64/sqrt/truncate above), bpf_trace_printf (return value == bytes captured), rand (range, no panic) - each compared on every element of its argument product.",
    design_ref="DESIGN.md section 4 C19"),
@@ -68,6 +71,7 @@ CHECKS = {
 }
 
 ENGINES = {
+ "sched": ("mc/src/schedeng.rs", "kind C: stateless controlled-scheduler search over real machine code (ptrace + debug-register watch-points)"),
  "dual": ("mc/src/dualeng.rs + mc/src/transcript.rs + mc-nostd/", "kind D: transcript of the same corpus from the std and the no_std build, compared case by case"),
  "calls": ("mc/src/callseng.rs", "kind A: call-graph and helper-call program generators over the reference machine / instrumented helpers"),
  "helpers": ("mc/src/helperseng.rs", "kind D: helper argument enumerator (stdout captured in a child)"),
